@@ -5,7 +5,9 @@ import (
 	"fmt"
 	"math/rand"
 	"net/url"
+	"runtime"
 	"strings"
+	"sync"
 	"sync/atomic"
 	"time"
 
@@ -140,6 +142,9 @@ func c11Case(r *core.Run, idx int, rng *rand.Rand) {
 	switch issMode {
 	case "static":
 		o.Issuer = "https://idp-" + plainString(rng, 3) + ".example"
+		if rng.Intn(3) == 0 {
+			o.Issuer = "https://xn--bcher-kva.idp--" + plainString(rng, 2) + ".example" // internationalised names contain "--"
+		}
 		hosts = []string{"whatever.example", "other.example"}
 		issuerFor = func(string) string { return o.Issuer }
 	case "static_path":
@@ -151,11 +156,11 @@ func c11Case(r *core.Run, idx int, rng *rand.Rand) {
 		hosts = []string{"whatever.example"}
 		issuerFor = func(string) string { return o.Issuer }
 	case "host":
-		hosts = []string{"a.idp.example", "b.idp.example:8443", "C.Example"}
+		hosts = []string{"a.idp.example", "b.idp.example:8443", "C.Example", "xn--mnchen-3ya.example"}
 		issuerFor = func(h string) string { return "https://" + h }
 	case "host_path":
 		o.HostPath = []string{"/saml", "saml/v2", "/x/"}[rng.Intn(3)]
-		hosts = []string{"a.idp.example", "b.idp.example:8443"}
+		hosts = []string{"a.idp.example", "b.idp.example:8443", "idp--staging.example"}
 		issuerFor = func(h string) string {
 			p := o.HostPath
 			if !strings.HasPrefix(p, "/") {
@@ -166,7 +171,7 @@ func c11Case(r *core.Run, idx int, rng *rand.Rand) {
 	case "forwarded":
 		o.UseFwd = true
 		o.HostPath = "/saml"
-		hosts = []string{"fwd-a.example", "fwd-b.example"}
+		hosts = []string{"fwd-a.example", "fwd-b.example", "xn--fwd-c.example"}
 		hdrFor = func(h string) map[string][]string {
 			return map[string][]string{"Forwarded": {"for=192.0.2.1;host=" + h + ";proto=http"}}
 		}
@@ -426,6 +431,70 @@ func c11Case(r *core.Run, idx int, rng *rand.Rand) {
 
 var _ = sim.FaultError
 
+// c11ConcurrentHosts: the metadata of several hosts is requested at the same time from one provider with a host-derived
+// issuer (half of the time signed, so that a storage call lies between building and serialising the document): every
+// document describes the host it was asked for - entityID and all advertised locations.
+func c11ConcurrentHosts(r *core.Run, idx int, rng *rand.Rand) {
+	const wl = "concurrent_hosts"
+	o := env.Opts{HostPath: "/saml"}
+	fwd := rng.Intn(3) == 0
+	o.UseFwd = fwd
+	if rng.Intn(2) == 0 {
+		o.MetaSigAlg = spsim.AlgRSASHA256
+	}
+	e, err := env.New(o)
+	if err != nil {
+		panic(err)
+	}
+	var dctr atomic.Int64
+	e.W.Delay = func(op string) {
+		switch n := dctr.Add(1); n % 3 {
+		case 0:
+			runtime.Gosched()
+		case 1:
+			time.Sleep(time.Duration(30+n%300) * time.Microsecond)
+		}
+	}
+	hosts := []string{"one.idp.example", "two.idp.example:8443", "three.example", "xn--vier-4.example"}
+	var wg sync.WaitGroup
+	for g := 0; g < 8; g++ {
+		wg.Add(1)
+		go func(g int) {
+			defer wg.Done()
+			h := hosts[g%len(hosts)]
+			reqHost, hdr := h, map[string][]string(nil)
+			if fwd {
+				reqHost, hdr = "lb.internal", map[string][]string{"Forwarded": {"host=\"" + h + "\""}}
+			}
+			for k := 0; k < 8; k++ {
+				mv := fetchMeta(e, env.PathMetadata, reqHost, hdr)
+				r.Count("concurrent_metadata_documents", 1)
+				class := fmt.Sprintf("concurrent_hosts|signed=%v|forwarded=%v", o.MetaSigAlg != "", fwd)
+				viol := func(clause, reason string) {
+					r.Violate(core.Violation{Clause: clause, Class: class, Reason: reason, Workload: wl, Index: idx, Case: map[string]any{"host": h, "client": g, "step": k}, Observed: mv.Call.Describe()})
+				}
+				if mv.Err != "" {
+					viol("metadata_unavailable", mv.Err)
+					return
+				}
+				base := "https://" + h + "/saml"
+				if mv.EntityID != base+"/metadata" {
+					viol("entity_id", fmt.Sprintf("entityID %q in the document served for host %s", mv.EntityID, h))
+					return
+				}
+				for _, ep := range append(append(append([]endpoint{}, mv.SSO...), mv.SLO...), mv.Attr...) {
+					if !strings.HasPrefix(ep.Location, base+"/") {
+						viol("advertised_location_of_other_host", fmt.Sprintf("the document served for host %s advertises %q", h, ep.Location))
+						return
+					}
+				}
+			}
+		}(g)
+	}
+	wg.Wait()
+	r.Eval(fmt.Sprintf("concurrent_hosts|%d", idx))
+}
+
 func init() {
 	register(&Prop{
 		ID: "C11", Level: "exploration", DeathIsViolation: true,
@@ -442,7 +511,8 @@ func init() {
 			r.Require("want_signed_probes", 200)
 			r.Require("key_rotations", 100)
 			r.Require("metadata_requests_with_transient_key_fault", 100)
-			return []core.Workload{{Name: "configurations", N: c.Pick(200, 2500), Fn: c11Case}}
+			r.Require("concurrent_metadata_documents", 500)
+			return []core.Workload{{Name: "configurations", N: c.Pick(200, 2500), Fn: c11Case}, {Name: "concurrent_hosts", N: c.Pick(30, 300), Fn: c11ConcurrentHosts}}
 		},
 		After: func(c *Ctx) { verify.Py.Close() },
 	})
